@@ -10,6 +10,7 @@ import (
 	"io"
 	"runtime"
 	"strconv"
+	"strings"
 	"sync"
 	"time"
 
@@ -193,6 +194,9 @@ func (m *Manager) createTable(name string) (Table, error) {
 func (m *Manager) DeleteTable(name string) error {
 	m.mtx.Lock()
 	defer m.mtx.Unlock()
+	if !isTableName(name) {
+		return serrors.ErrTableNotFound
+	}
 	storeName := storedTableName(name)
 	tab, err := m.store.Get(storeName)
 	if err != nil {
@@ -203,6 +207,12 @@ func (m *Manager) DeleteTable(name string) error {
 	}
 
 	return m.store.Delete(storeName, tab.Ver)
+}
+
+// isTableName tells whether name can be the name of a table. The records of the tables sit directly under keyPrefix,
+// a name containing '/' would address other records of the catalogue instead (the table ID sequence is one of them).
+func isTableName(name string) bool {
+	return !strings.Contains(name, "/")
 }
 
 func storedTableName(name string) string {
@@ -520,6 +530,9 @@ func (m *Manager) stopTable(clusterID uint64) error {
 }
 
 func (m *Manager) Restore(name string, reader io.Reader) error {
+	if !isTableName(name) {
+		return serrors.ErrTableNotFound
+	}
 	tbl, version, err := m.getTableVersion(name)
 	if err != nil && !errors.Is(err, serrors.ErrTableNotFound) {
 		return err
@@ -567,6 +580,9 @@ func (m *Manager) Restore(name string, reader io.Reader) error {
 }
 
 func (m *Manager) getTableVersion(name string) (Table, uint64, error) {
+	if !isTableName(name) {
+		return Table{}, 0, serrors.ErrTableNotFound
+	}
 	v, err := m.store.Get(storedTableName(name))
 	if err != nil {
 		if errors.Is(err, kv.ErrNotExist) {
